@@ -2297,6 +2297,19 @@ static void init_tables(void)
 #endif
 }
 
+/* The generic tables are the same for every chip: build them once. The C++ front-end also calls this while
+   the program starts (see mame_opn2.cpp), so chips created later, on any thread, only read them. */
+static int tables_built = 0;
+
+void ym2612_init_tables(void)
+{
+	if (!tables_built)
+	{
+		init_tables();
+		tables_built = 1;
+	}
+}
+
 #endif /* BUILD_OPN */
 
 #if (BUILD_YM2612||BUILD_YM3438)
@@ -2636,7 +2649,7 @@ void * ym2612_init(void *param, int clock, int rate,
 		return NULL;
 	memset(F2612, 0x00, sizeof(YM2612));
 	/* allocate total level table (128kb space) */
-	init_tables();
+	ym2612_init_tables();
 
 	F2612->OPN.ST.param = param;
 	F2612->OPN.type = TYPE_YM2612;
